@@ -15,7 +15,7 @@
 (* A rejected command (response "(error ...)") is the single action        *)
 (* Reject: it leaves the whole state unchanged - this is property C19.     *)
 (***************************************************************************)
-EXTENDS Sat
+EXTENDS Sat, Proof
 
 VARIABLES
   tt,       \* term table of the current family of runs
@@ -27,9 +27,11 @@ VARIABLES
   defs,     \* name -> [p, b, lvl]: define-fun
   mode,     \* "start" | "sat" | "unsat" | "unknown": result of the last check-sat
   model,    \* last model printed by get-model in this sat mode, or <<>>
-  errs      \* number of rejected commands so far (exit status = IF errs > 0 THEN 1 ELSE 0)
+  errs,     \* number of rejected commands so far (exit status = IF errs > 0 THEN 1 ELSE 0)
+  fids,     \* frame id of every level of the stack (the base level has id 0); ids are never reused
+  nextFid   \* the id the next pushed level gets
 
-svars == <<tt, dom, inited, opts, stack, names, defs, mode, model, errs>>
+svars == <<tt, dom, inited, opts, stack, names, defs, mode, model, errs, fids, nextFid>>
 
 DefaultOpts ==
   [ incremental |-> "true", globaldecl |-> "false", models |-> "false",
@@ -65,21 +67,22 @@ ScriptInit(t0, d0) ==
   /\ inited = FALSE /\ opts = DefaultOpts
   /\ stack = << <<>> >> /\ names = <<>> /\ defs = <<>>
   /\ mode = "start" /\ model = <<>> /\ errs = 0
+  /\ fids = <<0>> /\ nextFid = 1
 
 \* ------------------------------------------------------------------ effects
-Reject == errs' = errs + 1 /\ UNCHANGED <<tt, dom, inited, opts, stack, names, defs, mode, model>>
+Reject == errs' = errs + 1 /\ UNCHANGED <<tt, dom, inited, opts, stack, names, defs, mode, model, fids, nextFid>>
 
 Silent == UNCHANGED svars       \* echo, set-info, get-info, get-option, declarations
 
-SetLogicEff == inited' = TRUE /\ UNCHANGED <<tt, dom, opts, stack, names, defs, mode, model, errs>>
+SetLogicEff == inited' = TRUE /\ UNCHANGED <<tt, dom, opts, stack, names, defs, mode, model, errs, fids, nextFid>>
 
 SetOptionEff(k, v) ==
   /\ opts' = IF OptKey(k) = "other" THEN opts ELSE [opts EXCEPT ![OptKey(k)] = v]
-  /\ UNCHANGED <<tt, dom, inited, stack, names, defs, mode, model, errs>>
+  /\ UNCHANGED <<tt, dom, inited, stack, names, defs, mode, model, errs, fids, nextFid>>
 
 DefineEff(nm, p, b) ==
   /\ defs' = (nm :> [p |-> p, b |-> b, lvl |-> IF Global THEN 0 ELSE Depth]) @@ defs
-  /\ UNCHANGED <<tt, dom, inited, opts, stack, names, mode, model, errs>>
+  /\ UNCHANGED <<tt, dom, inited, opts, stack, names, mode, model, errs, fids, nextFid>>
 
 \* inner: sequence of [nm, t] for :named subterms, nm/t the top-level name ("" if none)
 NewNames(nm, t, inner) ==
@@ -91,12 +94,13 @@ AssertEff(t, nm, inner) ==
   /\ names' = [x \in { nn[i].nm : i \in DOMAIN nn } |->
                  [t |-> nn[CHOOSE i \in DOMAIN nn : nn[i].nm = x].t, lvl |-> lvl]] @@ names
   /\ mode' = "start" /\ model' = <<>>
-  /\ UNCHANGED <<tt, dom, inited, opts, defs, errs>>
+  /\ UNCHANGED <<tt, dom, inited, opts, defs, errs, fids, nextFid>>
 
 RECURSIVE PushFrames(_, _)
 PushFrames(s, n) == IF n = 0 THEN s ELSE PushFrames(Append(s, <<>>), n - 1)
 PushEff(n) ==
   /\ stack' = PushFrames(stack, n)
+  /\ fids' = fids \o [i \in 1..n |-> nextFid + i - 1] /\ nextFid' = nextFid + n
   /\ mode' = "start" /\ model' = <<>>
   /\ UNCHANGED <<tt, dom, inited, opts, names, defs, errs>>
 
@@ -105,16 +109,17 @@ PopEff(n) ==
   /\ stack' = SubSeq(stack, 1, Len(stack) - n)
   /\ names' = Keep(names, Depth - n)
   /\ defs'  = Keep(defs, Depth - n)
+  /\ fids' = SubSeq(fids, 1, Len(fids) - n)
   /\ mode' = "start" /\ model' = <<>>
-  /\ UNCHANGED <<tt, dom, inited, opts, errs>>
+  /\ UNCHANGED <<tt, dom, inited, opts, errs, nextFid>>
 
 CheckSatEff(r) ==
   /\ mode' = r /\ model' = <<>>
-  /\ UNCHANGED <<tt, dom, inited, opts, stack, names, defs, errs>>
+  /\ UNCHANGED <<tt, dom, inited, opts, stack, names, defs, errs, fids, nextFid>>
 
 GetModelEff(m) ==
   /\ model' = m
-  /\ UNCHANGED <<tt, dom, inited, opts, stack, names, defs, mode, errs>>
+  /\ UNCHANGED <<tt, dom, inited, opts, stack, names, defs, mode, errs, fids, nextFid>>
 
 \* ------------------------------------------------------------------- guards
 \* legality of a command in the current state, where a property depends on it
@@ -183,6 +188,17 @@ ItpShared(A, B, itp)    == (FreeSyms(tt, itp) \ DOMAIN Base) \subseteq
                               (SymsOf(tt, A, Base) \cap SymsOf(tt, B, Base))
 \* path property: I_j /\ G_{j+1} => I_{j+1}
 PathStep(itp, G, nitpNext, h) == ~CandWitness(tt, {itp, nitpNext} \cup G, Base, h)
+
+\* C10: printed proofs
+ActiveFids == { fids[i] : i \in DOMAIN fids }
+\* prem: the formulas the leaves must follow from - the roots given to the CNF converter for the levels on
+\*   the stack (from the hook trace; they contain the auxiliary symbols of preprocessing that leaves mention),
+\*   or the current assertions when no hook trace is available
+\* h: candidate models of (prem and the negated k-th leaf)
+LeafImplied(nodes, k, prem, h) ==
+  LET n == nodes[k] IN
+  \/ n.kind # "leaf" \/ IsActivation(n) \/ GuardOfPopped(n, ActiveFids)
+  \/ ~CandWitness(tt, prem \cup NegatedLeaf(n, ActiveFids), Base, h)
 
 \* --------------------------------------------------------------- invariants
 TypeOK ==
